@@ -450,6 +450,31 @@ def agraph_level(ctx, rep):
                 rep.violate(f"row {i} of the result is {out[i, 0]!r} when evaluated with the other rows but {float(single[i][0, 0])!r} on its own "
                             f"(x[{i}] = {x[i].tolist()})", "C01:rows-not-independent", case)
                 continue
+        # the second parameter of a one-operand command is not an operand: pointing it at any earlier row (one that raises, one
+        # that loads another constant, ...) changes nothing
+        unary_rows = [i for i, r in enumerate(genome) if r[0] >= 2 and r[0] not in G.ARITY2 and i > 0]
+        if unary_rows:
+            g3 = [list(r) for r in genome]
+            extra = [[G.INTEGER, 1, 1], [G.INTEGER, 0, 0], [G.DIV, 0, 1], [G.CONSTANT, -1, -1]]      # 1/0 on integer loads; a constant
+            g3 = extra + [[r[0], r[1] + 4, r[2] + 4] if r[0] >= 2 else r for r in g3]
+            for i in unary_rows:
+                g3[i + 4][2] = rng.choice([2, 3, rng.randrange(i + 4)])
+            ag3 = AGraph()
+            ag3.command_array = np.array(g3, dtype=int).reshape(-1, 3)
+            if ag3.get_number_local_optimization_params() == L:
+                ag3.set_local_optimization_params(ag.constants)
+                with warnings.catch_warnings():
+                    warnings.simplefilter("ignore")
+                    out3 = ag3.evaluate_equation_at(x)
+                rep.count("stray_second_parameter_checks")
+                if not (out3.shape == out.shape and all(f2b(a) == f2b(b) or (math.isnan(a) and math.isnan(b)) for a, b in zip(out.ravel(), out3.ravel()))):
+                    rep.violate("giving the one-operand commands a stray second parameter (rows the expression does not depend on) changed the result "
+                                f"from {out.ravel().tolist()[:3]} to {out3.ravel().tolist()[:3]}", "C01:unused-rows", {**case, "genome_with_stray_parameters": g3})
+                    continue
+            elif ag3.get_number_local_optimization_params() != L:
+                rep.violate(f"a stray second parameter of a one-operand command changed the number of constants from {L} to "
+                            f"{ag3.get_number_local_optimization_params()}", "C01:unused-rows", {**case, "genome_with_stray_parameters": g3})
+                continue
         # agreement with an independent reduction + backend evaluation, and irrelevance of unused rows
         used = G.utilized(genome)
         if not all(used):
